@@ -53,3 +53,10 @@ add("C17",
     "DESIGN.md 3/C17")
 for _p in ("C02", "C17"):
     NOT_APPLICABLE.pop(_p, None)
+
+add("C07",
+    "CrossHair symbolic execution of Server.create_authn_response -> setup_assertion -> Assertion.apply_policy -> Policy.restrict/filter over symbolic identity subsets x policy shapes x SP declarations, released attributes compared with an independent reference",
+    "For every subset of a 4-attribute identity (incl. multi-valued mail and an undeclared attribute), 8 policy shapes and 4 SP declarations (incl. unsatisfiable requirements), what the returned Response asserts is a subset of the reference release computed from the documentation; error responses carry no attributes.",
+    "Trusted: CrossHair/z3; reference release function in harness/c07.py; regexes from a fixed list; unsigned/unencrypted responses read at object level.",
+    "DESIGN.md 3/C07")
+NOT_APPLICABLE.pop("C07", None)
